@@ -17,6 +17,34 @@ def run(rep, drv):
 	# customers with node index 0 and frequent disruptions (index 0 is legal and falsy; disruption bookkeeping is per customer index)
 	simstream.run_stream(rep, drv, 'sim-trace', 600 if th else 80, FIELDS, oracle, THEOREM, th, force={'label0': True, 'pdis': .8}, seed_off=101)
 	mplib.run_mp_stream(rep, drv, 'C01', THEOREM + ' + Props/MP (rm_conservation, rm_never_negative)', 400 if th else 50, th, seed_off=11)
+	import random
+	rngo = random.Random(rep.seed * 13 + 301)
+	for k in range(300 if th else 50):
+		override_case(rep, drv, simlib.gen_spec(rngo, th))
+
+
+def override_case(rep, drv, spec):
+	"""Orders SET from outside through step(order_quantity_override=...): whatever a node is told to order (more or LESS than its policy asks for), every
+	balance of the property still closes on the real trajectory. The override is not part of the Lean model (it only supplies the documented initial
+	state); comparisons within 1e-9, because forced orders make production shares non-dyadic."""
+	import random
+	rng = random.Random(repr(spec['labels']) + str(spec['T']) + 'c01')
+	ov = []
+	for t in range(spec['T']):
+		ov.append({l: float(simlib.gen_value(rng, 0, 14, True)) for l in spec['labels'] if rng.random() < .35})
+	py = simlib.run_py(spec, mode='step', overrides=ov)
+	case = dict(spec, overrides=[{str(k): v for k, v in o.items()} for o in ov])
+	rep.case('order-override', case, nontrivial=any(ov))
+	if 'error' in py:
+		rep.diff('order-override', 'step() with order_quantity_override raised %s: %s' % (py['error'], py.get('msg')), case, oracle=True, theorem=THEOREM)
+		return
+	resp = drv.call('sim', **simlib.model_request(spec, exo_from=py['trace']))
+	init = simlib.canon_model({'trace': [resp['init']], 'total': '0', 'orderSeq': [], 'shipSeq': [], 'orderOK': True})['trace'][0]
+	from fractions import Fraction as F
+	fails = simlib.oracle_C01(spec, py['trace'], init, tol=F(1, 10 ** 9))
+	if fails:
+		rep.diff('order-override', 'property predicate fails on the real code: ' + '; '.join(fails[:3]), case, py={'predicate_failures': fails[:10]}, oracle=True, theorem=THEOREM)
+
 
 def replay_mp(rep, drv, doc):
 	mplib.mp_case(rep, drv, doc['case'], 'C01', THEOREM)
@@ -24,4 +52,6 @@ def replay_mp(rep, drv, doc):
 def replay(rep, drv, doc):
 	if doc['stream'] == 'mp-kernels':
 		return replay_mp(rep, drv, doc)
+	if doc['stream'] == 'order-override':
+		return override_case(rep, drv, {k: v for k, v in doc['case'].items() if k != 'overrides'})
 	r = simstream.one_case(rep, drv, doc['stream'], doc['case'], FIELDS, oracle, THEOREM)
